@@ -168,6 +168,12 @@ LEMMAS['SUM/count-bounds'] = dict(
     hyps=['n >= 0', 'forall(j, 0, n, 0 <= f[j] and f[j] <= 1)'],
     induct=('m', '0', 'n', '0 <= Sum(j, m, f[j]) and Sum(j, m, f[j]) <= m'))
 
+# ---- a prefix of a sum of non-negative terms is at most the whole sum
+LEMMAS['SUM/prefix-le'] = dict(
+    vars={'f': ('list', 'int'), 'k': 'int', 'n': 'int'},
+    hyps=['0 <= k', 'k <= n', 'forall(j, 0, n, f[j] >= 0)'],
+    induct=('m', 'k', 'n', 'Sum(j, k, f[j]) <= Sum(j, m, f[j])'))
+
 # ---- C07: the strict lexicographic order is total on profiles of one length: if neither is more greedy (generous) than the
 #      other they are equal entry by entry.  (run's postcondition states attainment of the greedy profile through the order.)
 LEMMAS['C07/greedy-order-total'] = dict(
